@@ -200,6 +200,9 @@ NoFile(res) == [res |-> res, flags |-> WZero, pos |-> -1, csize |-> -1, fsize |-
                 single |-> FALSE, cflag |-> FALSE, enc |-> "plain", sectors |-> <<>>, stored |-> <<>>]
 
 \* Decode the file of block entry `be` (looked up under `name`) of the archive at `base`.
+\* First a *plan* is derived from the block entry (which byte ranges are cipher units, with which key
+\* offset, what plain length each must have, whether a unit may be compressed); then every unit is
+\* decrypted (one place) and turned into a sector.
 ReadBlock(bs, base, ssize, be, blk, name, d) ==
   LET pos   == NatOf(be.pos)
       csize == NatOf(be.csize)
@@ -207,49 +210,50 @@ ReadBlock(bs, base, ssize, be, blk, name, d) ==
       fl    == be.flags
       encd  == Has(fl, F_ENCRYPTED)
       key   == FileKeyOf(name, be.pos, be.fsize, fl, d)
-      dec(bytes, kk) == IF encd THEN UnitDecrypt(bytes, kk, d) ELSE bytes
       sngl  == Has(fl, F_SINGLE)
       cfl   == Has(fl, F_COMPRESS)
       nsec  == CeilDiv(fsize, ssize)
       want(si) == Min2(ssize, fsize - (si - 1) * ssize)          \* si = 1..nsec
-      info(res, secs, stored) ==
-        [ res |-> res, flags |-> fl, pos |-> pos, csize |-> csize, fsize |-> fsize, blk |-> blk,
-          single |-> sngl, cflag |-> cfl,
-          enc |-> IF ~encd THEN "plain" ELSE IF Has(fl, F_FIXKEY) THEN "fix" ELSE "enc",
-          sectors |-> secs, stored |-> stored ]
       inside(lo, hi) == lo >= 0 /\ lo <= hi /\ base + hi <= Len(bs)     \* byte range [lo,hi) of the archive
       slice(lo, hi)  == SubSeq(bs, base + lo + 1, base + hi)
-  IN
-  IF pos < 0 \/ csize < 0 \/ fsize < 0 \/ ~Has(fl, F_EXISTS) THEN info("malformed:entry", <<>>, <<>>)
-  ELSE IF Has(fl, F_IMPLODE) \/ Has(fl, F_PATCH) \/ Has(fl, F_SECTORCRC) THEN info("unsupported", <<>>, <<>>)
-  ELSE IF fsize = 0 THEN info("ok", <<>>, <<>>)
-  ELSE IF sngl THEN
-         IF ~inside(pos, pos + csize) \/ csize = 0 THEN info("malformed:range", <<>>, <<>>)
-         ELSE info("ok", << Sector(dec(slice(pos, pos + csize), key), fsize, cfl) >>, <<csize>>)
-  ELSE IF ~cfl /\ ~d.rawtable THEN
-         \* not compressed: sectors of exactly ssize bytes back to back, no offset table
-         IF csize # fsize \/ ~inside(pos, pos + fsize) THEN info("malformed:rawsize", <<>>, <<>>)
-         ELSE IF d.oneblock
-              THEN LET whole == dec(slice(pos, pos + fsize), key)
-                   IN  info("ok", [si \in 1..nsec |-> [m |-> -1, p |-> SubSeq(whole, (si-1)*ssize + 1, (si-1)*ssize + want(si)), want |-> want(si)]],
-                            [si \in 1..nsec |-> want(si)])
-              ELSE info("ok", [si \in 1..nsec |->
-                                 [m |-> -1, want |-> want(si),
-                                  p |-> dec(slice(pos + (si-1)*ssize, pos + (si-1)*ssize + want(si)), Add32n(key, si - 1))]],
-                        [si \in 1..nsec |-> want(si)])
-  ELSE \* sector offset table: nsec+1 dwords relative to the file start, encrypted with key-1
-       IF ~inside(pos, pos + 4 * (nsec + 1)) THEN info("malformed:table", <<>>, <<>>)
-       ELSE LET raww == WordsOf(slice(pos, pos + 4 * (nsec + 1)))
-                offw == IF encd THEN StdDecWords(raww, Sub32(key, <<0, 1>>)) ELSE raww
-                off  == [oi \in 1..(nsec + 1) |-> NatOf(offw[oi])]
-                okoff == /\ off[1] = 4 * (nsec + 1)
-                         /\ \A oi \in 1..nsec : off[oi] >= 0 /\ off[oi] <= off[oi + 1] /\ off[oi + 1] - off[oi] <= want(oi)
-                         /\ off[nsec + 1] = csize
-                         /\ inside(pos, pos + csize)
-            IN  IF ~okoff THEN info("malformed:offsets", <<>>, <<>>)
-                ELSE info("ok", [si \in 1..nsec |->
-                                   Sector(dec(slice(pos + off[si], pos + off[si + 1]), Add32n(key, si - 1)), want(si), cfl)],
-                          [si \in 1..nsec |-> off[si + 1] - off[si]])
+      Plan(res, units, split) == [res |-> res, units |-> units, split |-> split]
+      Unit(lo, hi, ko, wantl, mc) == [lo |-> lo, hi |-> hi, ko |-> ko, want |-> wantl, mc |-> mc]
+      \* sector offset table: nsec+1 dwords relative to the file start, encrypted with key-1
+      offw  == LET raww == WordsOf(slice(pos, pos + 4 * (nsec + 1)))
+               IN  IF encd THEN StdDecWords(raww, Sub32(key, <<0, 1>>)) ELSE raww
+      off   == [oi \in 1..(nsec + 1) |-> NatOf(offw[oi])]
+      okoff == /\ off[1] = 4 * (nsec + 1)
+               /\ \A oi \in 1..nsec : off[oi] >= 0 /\ off[oi] <= off[oi + 1] /\ off[oi + 1] - off[oi] <= want(oi)
+               /\ off[nsec + 1] = csize
+               /\ inside(pos, pos + csize)
+      plan ==
+        IF pos < 0 \/ csize < 0 \/ fsize < 0 \/ ~Has(fl, F_EXISTS) THEN Plan("malformed:entry", <<>>, FALSE)
+        ELSE IF Has(fl, F_IMPLODE) \/ Has(fl, F_PATCH) \/ Has(fl, F_SECTORCRC) THEN Plan("unsupported", <<>>, FALSE)
+        ELSE IF fsize = 0 THEN Plan("ok", <<>>, FALSE)
+        ELSE IF sngl THEN
+               \* one unit; compressed iff stored smaller than the file
+               IF ~inside(pos, pos + csize) \/ csize = 0 THEN Plan("malformed:range", <<>>, FALSE)
+               ELSE Plan("ok", << Unit(pos, pos + csize, 0, fsize, cfl) >>, FALSE)
+        ELSE IF ~cfl /\ ~d.rawtable THEN
+               \* not compressed: sectors of exactly ssize bytes back to back, no offset table
+               IF csize # fsize \/ ~inside(pos, pos + fsize) THEN Plan("malformed:rawsize", <<>>, FALSE)
+               ELSE IF d.oneblock THEN Plan("ok", << Unit(pos, pos + fsize, 0, fsize, FALSE) >>, TRUE)
+               ELSE Plan("ok", [si \in 1..nsec |-> Unit(pos + (si-1)*ssize, pos + (si-1)*ssize + want(si), si - 1, want(si), FALSE)], FALSE)
+        ELSE IF ~inside(pos, pos + 4 * (nsec + 1)) THEN Plan("malformed:table", <<>>, FALSE)
+        ELSE IF ~okoff THEN Plan("malformed:offsets", <<>>, FALSE)
+        ELSE Plan("ok", [si \in 1..nsec |-> Unit(pos + off[si], pos + off[si + 1], si - 1, want(si), cfl)], FALSE)
+      plains == [ui \in 1..Len(plan.units) |->
+                   LET un == plan.units[ui]
+                   IN  IF encd THEN UnitDecrypt(slice(un.lo, un.hi), Add32n(key, un.ko), d) ELSE slice(un.lo, un.hi)]
+      secs   == IF plan.split
+                THEN [si \in 1..nsec |-> [m |-> -1, p |-> SubSeq(plains[1], (si-1)*ssize + 1, (si-1)*ssize + want(si)), want |-> want(si)]]
+                ELSE [ui \in 1..Len(plan.units) |-> Sector(plains[ui], plan.units[ui].want, plan.units[ui].mc)]
+      stored == IF plan.split THEN [si \in 1..nsec |-> want(si)]
+                ELSE [ui \in 1..Len(plan.units) |-> plan.units[ui].hi - plan.units[ui].lo]
+  IN  [ res |-> plan.res, flags |-> fl, pos |-> pos, csize |-> csize, fsize |-> fsize, blk |-> blk,
+        single |-> sngl, cflag |-> cfl,
+        enc |-> IF ~encd THEN "plain" ELSE IF Has(fl, F_FIXKEY) THEN "fix" ELSE "enc",
+        sectors |-> secs, stored |-> stored ]
 
 \* An opened archive: header + decrypted tables (or why not)
 OpenArchive(bs) ==
@@ -306,24 +310,27 @@ FlagsOf(f) ==
   Or32(IF f.enc = "fix" THEN F_FIXKEY ELSE WZero,
        IF f.single THEN F_SINGLE ELSE WZero))))
 
-\* bytes of one file stored at archive offset pos
+\* bytes of one file stored at archive offset pos: [sector offset table] ++ cipher units
 FileImage(f, pos, d) ==
   LET fl   == FlagsOf(f)
       key  == FileKeyOf(f.name, WFromNat(pos), WFromNat(f.fsize), fl, d)
       encd == f.enc # "plain"
-      enc(bytes, kk) == IF encd THEN UnitEncrypt(bytes, kk, d) ELSE bytes
       nsec == Len(f.sectors)
       units == [si \in 1..nsec |-> UnitBytes(f.sectors[si])]
-  IN  IF f.fsize = 0 THEN <<>>
-      ELSE IF f.single THEN enc(units[1], key)
-      ELSE IF f.cflag \/ d.rawtable THEN
-             LET offs == FoldLeft(LAMBDA acc, si : Append(acc, acc[Len(acc)] + Len(units[si])),
-                                  <<4 * (nsec + 1)>>, [si \in 1..nsec |-> si])
-                 offw == [oi \in 1..(nsec + 1) |-> WFromNat(offs[oi])]
-                 tabw == IF encd THEN StdEncWords(offw, Sub32(key, <<0, 1>>)) ELSE offw
-             IN  BytesOf(tabw) \o ConcatAll([si \in 1..nsec |-> enc(units[si], Add32n(key, si - 1))])
-      ELSE IF d.oneblock THEN enc(ConcatAll(units), key)
-      ELSE ConcatAll([si \in 1..nsec |-> enc(units[si], Add32n(key, si - 1))])
+      hasTable == f.fsize > 0 /\ ~f.single /\ (f.cflag \/ d.rawtable)
+      \* cipher units with their key offsets
+      parts == IF f.fsize = 0 THEN <<>>
+               ELSE IF f.single THEN << [u |-> units[1], ko |-> 0] >>
+               ELSE IF ~hasTable /\ d.oneblock THEN << [u |-> ConcatAll(units), ko |-> 0] >>
+               ELSE [si \in 1..nsec |-> [u |-> units[si], ko |-> si - 1]]
+      stored == [pi \in 1..Len(parts) |->
+                   IF encd THEN UnitEncrypt(parts[pi].u, Add32n(key, parts[pi].ko), d) ELSE parts[pi].u]
+      offs == FoldLeft(LAMBDA acc, si : Append(acc, acc[Len(acc)] + Len(units[si])),
+                       <<4 * (nsec + 1)>>, [si \in 1..nsec |-> si])
+      offw == [oi \in 1..(nsec + 1) |-> WFromNat(offs[oi])]
+      table == IF ~hasTable THEN <<>>
+               ELSE BytesOf(IF encd THEN StdEncWords(offw, Sub32(key, <<0, 1>>)) ELSE offw)
+  IN  table \o ConcatAll(stored)
 
 EmptyHashEntry   == [ha |-> HASH_EMPTY, hb |-> HASH_EMPTY, locale |-> 65535, platform |-> 65535, blk |-> HASH_EMPTY]
 DeletedHashEntry == [ha |-> HASH_EMPTY, hb |-> HASH_EMPTY, locale |-> 65535, platform |-> 65535, blk |-> HASH_DELETED]
